@@ -74,9 +74,19 @@ def positions (id : Ident) (mmrSize : Nat) : List Nat :=
   let r := id.posRange mmrSize
   List.range' r.1 (r.2 + 1 - r.1)
 
+/-- the peaks inside the segment's range, right to left (what the bagging loop at the end of
+`Segment::root` walks for the final, not full, segment) -/
+def peaksIn (id : Ident) (mmrSize : Nat) : List Nat :=
+  ((peaks mmrSize).filter fun p => (id.posRange mmrSize).1 ≤ p && p ≤ (id.posRange mmrSize).2).reverse
+
 end Ident
 
-/-! ## `Segment<T>` -/
+/-! ## `Segment<T>`
+
+Modelling note: functions that branch on a value take it as a parameter (`…With` / `…At`
+variants) and the Rust-named function instantiates the parameters with the identifier
+arithmetic.  This is the same computation; it keeps the wrapped-u64 arithmetic out of the
+`match` discriminants (the kernel would otherwise try to evaluate `% 2^64` on variables). -/
 
 structure Segment (α H : Type) where
   id : Ident
@@ -205,32 +215,36 @@ def bagPeaks (hf : HashFn α H) (s : Segment α H) (bm : Option (Nat → Bool)) 
       | .panic => .panic
 
 /-- the end of `Segment::root`, given the stack the loop left: the subtree root of a full
-segment, or the peaks inside the final segment bagged together.  (Since the repair
-`22ca8fd14` an empty stack / no peak in range is `SegmentError::NonExistent`, not a panic.) -/
+segment (`full`), or the peaks inside the final segment (`pks`, right to left) bagged together.
+(Since the repair `22ca8fd14` an empty stack / no peak in range is `SegmentError::NonExistent`,
+not a panic.) -/
 def rootFinish (hf : HashFn α H) (s : Segment α H) (bm : Option (Nat → Bool)) (mmrSize : Nat)
-    (stk : List (Option H)) : Res (Option H) :=
-  if s.id.full mmrSize then
+    (full : Bool) (pks : List Nat) (stk : List (Option H)) : Res (Option H) :=
+  if full then
     match stk with
     | v :: _ => .ok v
     | [] => .err .nonExistent     -- `hashes.pop().ok_or(SegmentError::NonExistent)`
   else
-    let r := s.id.posRange mmrSize
-    let pks := ((peaks mmrSize).filter fun p => r.1 ≤ p && p ≤ r.2).reverse
     match bagPeaks hf s bm mmrSize stk none pks with
     | .ok (some h) => .ok (some h)
     | .ok none => .err .nonExistent   -- `hash.ok_or(SegmentError::NonExistent)?`
     | .err e => .err e
     | .panic => .panic
 
+/-- `Segment::root` over the positions `ps` of the range -/
+def rootWith (hf : HashFn α H) (s : Segment α H) (mmrSize : Nat) (bm : Option (Nat → Bool))
+    (ps : List Nat) (full : Bool) (pks : List Nat) : Res (Option H) :=
+  match rootLoop hf s bm mmrSize ([], s.leafPos.zip s.leafData) ps with
+  | .ok st => rootFinish hf s bm mmrSize full pks st.1
+  | .err e => .err e
+  | .panic => .panic
+
 namespace Segment
 
 /-- `Segment::root(mmr_size, bitmap)`; `ok none` iff the segment is full and completely pruned -/
 def root (hf : HashFn α H) (s : Segment α H) (mmrSize : Nat) (bm : Option (Nat → Bool)) :
     Res (Option H) :=
-  match rootLoop hf s bm mmrSize ([], s.leafPos.zip s.leafData) (s.id.positions mmrSize) with
-  | .ok st => rootFinish hf s bm mmrSize st.1
-  | .err e => .err e
-  | .panic => .panic
+  rootWith hf s mmrSize bm (s.id.positions mmrSize) (s.id.full mmrSize) (s.id.peaksIn mmrSize)
 
 end Segment
 
@@ -258,21 +272,24 @@ def fupLoop (s : Segment α H) (b : Nat → Bool) (nLeavesTotal : Nat) :
       let hi := min (nLeaves (1 + bintreeRightmost p0)) nLeavesTotal
       if rangeCard b lo hi = 0 then fupLoop s b nLeavesTotal p0 rest else .err e
 
+/-- `first_unpruned_parent` given the result of `self.root(..)` and the last position -/
+def fupWith (s : Segment α H) (mmrSize : Nat) (bm : Option (Nat → Bool))
+    (rootRes : Res (Option H)) (last : Nat) : Res (H × Nat) :=
+  match rootRes with
+  | .err e => .err e
+  | .panic => .panic
+  | .ok (some root) => .ok (root, 1 + last)
+  | .ok none =>
+    match bm with
+    | none => .panic      -- `bitmap.unwrap()`
+    | some b => fupLoop s b (nLeaves mmrSize) last (familyBranch last mmrSize)
+
 namespace Segment
 
 /-- `first_unpruned_parent(mmr_size, bitmap)`: `(hash, 1-based position)` -/
 def firstUnprunedParent (hf : HashFn α H) (s : Segment α H) (mmrSize : Nat)
     (bm : Option (Nat → Bool)) : Res (H × Nat) :=
-  match s.root hf mmrSize bm with
-  | .err e => .err e
-  | .panic => .panic
-  | .ok (some root) => .ok (root, 1 + (s.id.posRange mmrSize).2)
-  | .ok none =>
-    match bm with
-    | none => .panic      -- `bitmap.unwrap()`
-    | some b =>
-      let last := (s.id.posRange mmrSize).2
-      fupLoop s b (nLeaves mmrSize) last (familyBranch last mmrSize)
+  fupWith s mmrSize bm (s.root hf mmrSize bm) (s.id.posRange mmrSize).2
 
 end Segment
 
@@ -347,27 +364,38 @@ def proofValidateWith (hf : HashFn α H) [DecidableEq H] (proof : List H) (lastP
                  else hf.node hashLastPos root otherRoot
     if root' = mmrRoot then .ok () else .err .mismatch
 
+/-- `Segment::validate` given the range and the result of `first_unpruned_parent` -/
+def validateAt (hf : HashFn α H) [DecidableEq H] (proof : List H) (mmrSize : Nat) (mmrRoot : H)
+    (first last : Nat) (fup : Res (H × Nat)) : Res Unit :=
+  match fup with
+  | .err e => .err e
+  | .panic => .panic
+  | .ok (segRoot, upos) => proofValidate hf proof mmrSize mmrRoot first last segRoot upos
+
+/-- `Segment::validate_with` given the range and the result of `first_unpruned_parent` -/
+def validateWithAt (hf : HashFn α H) [DecidableEq H] (proof : List H) (mmrSize : Nat) (mmrRoot : H)
+    (first last : Nat) (fup : Res (H × Nat)) (hashLastPos : Nat) (otherRoot : H)
+    (otherIsLeft : Bool) : Res Unit :=
+  match fup with
+  | .err e => .err e
+  | .panic => .panic
+  | .ok (segRoot, upos) =>
+    proofValidateWith hf proof mmrSize mmrRoot first last segRoot upos hashLastPos otherRoot otherIsLeft
+
 namespace Segment
 
 /-- `Segment::validate` -/
 def validate (hf : HashFn α H) [DecidableEq H] (s : Segment α H) (mmrSize : Nat)
     (bm : Option (Nat → Bool)) (mmrRoot : H) : Res Unit :=
-  let r := s.id.posRange mmrSize
-  match s.firstUnprunedParent hf mmrSize bm with
-  | .err e => .err e
-  | .panic => .panic
-  | .ok (segRoot, upos) => proofValidate hf s.proof mmrSize mmrRoot r.1 r.2 segRoot upos
+  validateAt hf s.proof mmrSize mmrRoot (s.id.posRange mmrSize).1 (s.id.posRange mmrSize).2
+    (s.firstUnprunedParent hf mmrSize bm)
 
 /-- `Segment::validate_with` (output MMR: the PMMR root is hashed with the bitmap root) -/
 def validateWith (hf : HashFn α H) [DecidableEq H] (s : Segment α H) (mmrSize : Nat)
     (bm : Option (Nat → Bool)) (mmrRoot : H) (hashLastPos : Nat) (otherRoot : H)
     (otherIsLeft : Bool) : Res Unit :=
-  let r := s.id.posRange mmrSize
-  match s.firstUnprunedParent hf mmrSize bm with
-  | .err e => .err e
-  | .panic => .panic
-  | .ok (segRoot, upos) =>
-    proofValidateWith hf s.proof mmrSize mmrRoot r.1 r.2 segRoot upos hashLastPos otherRoot otherIsLeft
+  validateWithAt hf s.proof mmrSize mmrRoot (s.id.posRange mmrSize).1 (s.id.posRange mmrSize).2
+    (s.firstUnprunedParent hf mmrSize bm) hashLastPos otherRoot otherIsLeft
 
 end Segment
 
@@ -451,27 +479,30 @@ def firstOnFile (v : View α H) : List (Nat × Nat) → Option (Nat × H)
     | some h => some (p0, h)
     | none => firstOnFile v rest
 
-/-- `Segment::from_pmmr(segment_id, pmmr, prunable)` -/
-def fromPmmr (hf : HashFn α H) (v : View α H) (id : Ident) (prunable : Bool) : Res (Segment α H) :=
-  let mmrSize := v.size
-  if id.unprunedSize mmrSize = 0 then .err .nonExistent else
-  let r := id.posRange mmrSize
-  match fill v prunable (id.positions mmrSize) with
+/-- `Segment::from_pmmr` after the `NonExistent` check, over the positions `ps = first..=last` -/
+def fromPmmrWith (hf : HashFn α H) (v : View α H) (id : Ident) (prunable : Bool)
+    (ps : List Nat) (first last : Nat) : Res (Segment α H) :=
+  match fill v prunable ps with
   | .err e => .err e
   | .panic => .panic
   | .ok (hs, ls) =>
     let (hs, startPos) :=
       if ls.isEmpty && hs.isEmpty then
-        match firstOnFile v (familyBranch r.2 mmrSize) with
+        match firstOnFile v (familyBranch last v.size) with
         | some (p0, h) => ([(p0, h)], some (1 + p0))
         | none => (hs, none)
       else (hs, none)
-    match generate hf v (1 + r.1) (1 + r.2) startPos with
+    match generate hf v (1 + first) (1 + last) startPos with
     | .err e => .err e
     | .panic => .panic
     | .ok proof =>
       .ok { id := id, hashPos := hs.map (·.1), hashes := hs.map (·.2),
             leafPos := ls.map (·.1), leafData := ls.map (·.2), proof := proof }
+
+/-- `Segment::from_pmmr(segment_id, pmmr, prunable)` -/
+def fromPmmr (hf : HashFn α H) (v : View α H) (id : Ident) (prunable : Bool) : Res (Segment α H) :=
+  if id.unprunedSize v.size = 0 then .err .nonExistent else
+  fromPmmrWith hf v id prunable (id.positions v.size) (id.posRange v.size).1 (id.posRange v.size).2
 
 /-- the view of an unpruned Vec-backed MMR with leaf data `d` (nothing removed) -/
 def vecView (hashes : List H) (d : List α) : View α H where
